@@ -40,7 +40,7 @@ class TLCResult:
         """PrintT lines of the form <<"TAG", ...>> parsed into python lists."""
         res = []
         for line in self.printed:
-            if line.startswith('<<"%s"' % tag):
+            if re.match(r'<<\s*"%s"' % re.escape(tag), line):
                 res.append(parse_tla_value(line))
         return res
 
@@ -81,6 +81,49 @@ def parse_tla_value(s: str):
         return t
 
     return val(tok())
+
+
+def _depth_change(line: str) -> int:
+    """net number of << minus >> outside string literals"""
+    d, i, n = 0, 0, len(line)
+    instr = False
+    while i < n:
+        ch = line[i]
+        if instr:
+            if ch == "\\":
+                i += 2
+                continue
+            if ch == '"':
+                instr = False
+        elif ch == '"':
+            instr = True
+        elif line.startswith("<<", i):
+            d += 1
+            i += 2
+            continue
+        elif line.startswith(">>", i):
+            d -= 1
+            i += 2
+            continue
+        i += 1
+    return d
+
+
+def extract_printed(out: str) -> List[str]:
+    """PrintT output: TLC pretty-prints long tuples over several lines; join them back."""
+    res, buf, depth = [], [], 0
+    for ln in out.splitlines():
+        if not buf:
+            if not ln.startswith("<<"):
+                continue
+            buf, depth = [ln.strip()], _depth_change(ln)
+        else:
+            buf.append(ln.strip())
+            depth += _depth_change(ln)
+        if depth <= 0:
+            res.append(" ".join(buf))
+            buf, depth = [], 0
+    return res
 
 
 def read_spec(name: str) -> str:
@@ -153,7 +196,7 @@ def run_tlc(
         return TLCResult("broken", out=out + "\nTIMEOUT after %ss" % timeout, cmd=" ".join(cmd), wall=time.time() - t0)
     shutil.rmtree(meta, ignore_errors=True)
     res = TLCResult("ok", out=out, cmd=" ".join(cmd), wall=time.time() - t0)
-    res.printed = [ln.strip() for ln in out.splitlines() if ln.startswith("<<")]
+    res.printed = extract_printed(out)
     m = None
     for m in re.finditer(r"(\d+) states generated, (\d+) distinct states found", out):
         pass
